@@ -76,6 +76,7 @@ type ProxyTopo struct {
 	DialErr      map[string]error
 	Extra        map[string]*Pipe         // further dialable raw peers by name (proxy side = A)
 	SlowDial     map[string]chan struct{} // dialling these names blocks until the channel is closed
+	moreServers  map[string]*Pipe
 }
 
 type ProxyOpts struct {
@@ -85,6 +86,7 @@ type ProxyOpts struct {
 	Intercept   goat.RpcIntercepter
 	NoServer    bool
 	NoGoatPeers bool // raw pipes only: clients are scripted (CCs stay nil)
+	Servers     int  // >1: further servers "srv1", "srv2", ... (own transport, Demux and Server object each); client i talks to server i % Servers
 }
 
 func NewProxyTopo(impl SvcServer, o ProxyOpts) *ProxyTopo {
@@ -103,6 +105,9 @@ func NewProxyTopo(impl SvcServer, o ProxyOpts) *ProxyTopo {
 			return t.SPipe.A, nil
 		}
 		if p := t.Extra[id]; p != nil {
+			return p.A, nil
+		}
+		if p := t.moreServers[id]; p != nil {
 			return p.A, nil
 		}
 		return nil, ErrClosed
@@ -126,13 +131,34 @@ func NewProxyTopo(impl SvcServer, o ProxyOpts) *ProxyTopo {
 			t.Proxy.AddClient("srv", t.SPipe.A)
 		}
 	}
+	t.moreServers = map[string]*Pipe{}
+	for k := 1; k < o.Servers && !o.NoServer; k++ {
+		sname := fmt.Sprintf("srv%d", k)
+		sp := NewPipe(t.Tap, PipeOpts{Name: sname, Cap: o.Cap})
+		t.moreServers[sname] = sp
+		srv := goat.NewServer(sname)
+		srv.RegisterService(&ServiceDesc, impl)
+		dm := goat.NewDemux(t.Ctx, sp.B, func(r *Rpc) string { return r.GetHeader().GetSource() }, func(rw goat.RpcReadWriter) {
+			t.Serves++
+			srv.Serve(t.Ctx, rw)
+			t.ServesDone++
+		})
+		vsched.GoNamed("demux-"+sname, func() { dm.Run() })
+		if o.PreAttach {
+			t.Proxy.AddClient(sname, sp.A)
+		}
+	}
 	for i := 0; i < o.Clients; i++ {
 		name := fmt.Sprintf("cli%d", i)
 		p := NewPipe(t.Tap, PipeOpts{Name: name, Cap: o.Cap})
 		t.CPipes = append(t.CPipes, p)
 		t.Proxy.AddClient(name, p.B)
+		dest := "srv"
+		if o.Servers > 1 && i%o.Servers > 0 {
+			dest = fmt.Sprintf("srv%d", i%o.Servers)
+		}
 		if !o.NoGoatPeers {
-			t.CCs = append(t.CCs, goat.NewClientConn(p.A, name, "srv"))
+			t.CCs = append(t.CCs, goat.NewClientConn(p.A, name, dest))
 		}
 	}
 	vsched.GoNamed("proxy", func() { t.Proxy.Serve(); t.ProxyDone = true })
